@@ -15,10 +15,12 @@
       hash iteration order);
     * a power with a non-integral exponent goes through Python floats: `Err.inexact` (or a hazard, see `scPow`);
     * type expressions (`uint8`, `ns.T.1.0`) as atoms are not part of `Expr`;
-    * string equality is NFC-normalised in the library (`String._equal`), string *identity* inside sets is not
-      (`String.__eq__`/`__hash__` on the raw text): the evaluator is parametric in the normalisation function
-      (`class StrNorm`), and `Ucd.nfc` below is the algorithm of UAX #15 (canonical decomposition, canonical ordering,
-      canonical composition, Hangul arithmetically) over character data handed in per case.
+    * strings are identified by their NFC form in the library: `String._equal` (the `==` / `!=` operators) and
+      `String.__eq__` / `__hash__` (the identity of set elements) normalise, `+` and `@print` work on the raw text.  The
+      evaluator is parametric in the normalisation function (`class StrNorm`); a set keeps the normal form of a string
+      element as its representative (the library keeps the raw text of the first spelling it met, which no operator of
+      the language can tell apart).  `Ucd.nfc` below is the algorithm of UAX #15 (canonical decomposition, canonical
+      ordering, canonical composition, Hangul arithmetically) over character data handed in per case.
 -/
 namespace Ex
 
@@ -286,6 +288,15 @@ def scBin [StrNorm] : BinOp → Scalar → Scalar → R Scalar
 
 /-! ### Sets -/
 
+/-- What identifies a scalar as an element of a set.  `String.__eq__` / `__hash__` compare the NFC forms, so two
+    spellings of one text are one element: the model keeps the normal form as the representative. -/
+def normSc [StrNorm] : Scalar → Scalar
+  | .str cs => .str (StrNorm.nfc cs)
+  | s => s
+
+/-- one element of the result of an element-wise operator, as it is identified inside the new set -/
+def scBinEl [StrNorm] (op : BinOp) (x y : Scalar) : R Scalar := (scBin op x y).map normSc
+
 /-- `frozenset(l)` as a duplicate-free list (first occurrence kept) -/
 def dedup : List Scalar → List Scalar
   | [] => []
@@ -301,12 +312,13 @@ def mkSetS (es : List Scalar) : R Val :=
   else if sameKinds es then .ok (.set (dedup es))
   else inval .hetero
 
-/-- `Set.__init__` on evaluated elements (a set of sets is outside the model). -/
-def mkSet (vs : List Val) : R Val :=
+/-- `Set.__init__` on evaluated elements (a set of sets is outside the model); strings are identified by their
+    normal form. -/
+def mkSet [StrNorm] (vs : List Val) : R Val :=
   if vs.isEmpty then inval .emptySet
   else
     let scs := vs.filterMap fun v => match v with | .sc s => some s | .set _ => none
-    if scs.length == vs.length then mkSetS scs
+    if scs.length == vs.length then mkSetS (scs.map normSc)
     else if vs.all (fun v => v.kind == .set) then .error .unsupported
     else inval .hetero
 
@@ -346,9 +358,9 @@ def mapR {α β} (f : α → R β) : List α → R (List β)
 def evalBin [StrNorm] (op : BinOp) : Val → Val → R Val
   | .sc a, .sc b => (scBin op a b).map .sc
   | .set a, .sc b =>
-      if op.isArith then (mapR (fun x => scBin op x b) a).bind mkSetS else inval .undefinedOp
+      if op.isArith then (mapR (fun x => scBinEl op x b) a).bind mkSetS else inval .undefinedOp
   | .sc a, .set b =>
-      if op.isArith then (mapR (fun x => scBin op a x) b).bind mkSetS else inval .undefinedOp
+      if op.isArith then (mapR (fun x => scBinEl op a x) b).bind mkSetS else inval .undefinedOp
   | .set a, .set b => setSet op a b
 
 def evalUn : UnOp → Val → R Val
